@@ -92,6 +92,7 @@ Definition run_codec (f : N) (a : list N) : list N :=
   | 252 => run_cert_ok a
   | 253 => run_check_intermediate a
   | 254 => run_check_intermediate_rfc a
+  | 255 => run_check_rows_rfc a
   | 208 => run_cm_rows Release a
   | 218 => run_cm_rows Checked a
   | 251 => run_spec_layout_packets a
